@@ -3,6 +3,8 @@ import HumphreyModel.Model.Percent
 import HumphreyModel.Model.Base64
 import HumphreyModel.Spec.Percent
 import HumphreyModel.Spec.Base64
+import HumphreyModel.Model.CodecTR
+import HumphreyModel.Driver.C18Gen
 
 /-!
 Driver for the percent-encoding and Base64 halves of C18.
@@ -12,6 +14,15 @@ Case lines (all byte strings lower-case hex):
 The spec verdict is computed from `Spec/*.lean` on the implementation's output where the spec is
 executable (both encoders, Base64 decoding); for percent-decoding the model is proved equal to
 the spec relation (`Percent.decode_iff_denotes`), so any other answer violates C18.
+
+LENGTH sweeps (inputs up to a mebibyte): the same four functions on an input given by a compact description
+(`Driver/C18Gen.lean`), long outputs as `#<len>:<fnv64>`:
+  `pctg_enc <desc> <hl encoded>`         `pctg_dec <desc> none|some:<hl bytes>|PANIC`
+  `b64g_enc <desc> <hl encoded>`         `b64g_dec <desc> err|ok:<hl bytes>|PANIC`
+They run the accumulator forms of `Model/CodecTR.lean`, proved equal to the models for every input
+(`Props/C18Fast.lean`); the verdict is the model's answer, which is the specification's by `encode_eq_spec`,
+`decode_iff_denotes`, `encode_eq_rfc4648` and `decode_ok_iff` (for Base64 texts of at most 4096 symbols the executable
+bit-level specification judges as well).
 -/
 namespace Humphrey.Driver.C18a
 open Humphrey Humphrey.Driver
@@ -35,8 +46,39 @@ def b64_dec (s : Bytes) : String := outcomeStr (Base64.decode s)
 def b64_dec_spec (s : Bytes) : String :=
   if Base64.Spec.shapeB s then "ok:" ++ hex (Base64.Spec.decode s) else "err"
 
+def pctg_dec (s : Bytes) : String :=
+  match Percent.decodeTR s [] with
+  | some b => "some:" ++ Gen.hl b
+  | none => "none"
+
+def outcomeStrL : Base64.Outcome → String
+  | .ok b => "ok:" ++ Gen.hl b
+  | .err => "err"
+  | .panic => "PANIC"
+
+def b64g_dec_spec (s : Bytes) : String :=
+  if Base64.Spec.shapeB s then "ok:" ++ Gen.hl (Base64.Spec.decode s) else "err"
+
 def dispatch (fn : String) (args : List String) (impl : String) : Option Verdict :=
   match fn, args with
+  | "pctg_enc", [a] =>
+    match Gen.bytesOf a with
+    | some b => let m := Gen.hl (Percent.encodeTR b []); some { model := m, spec := some (impl == m) }
+    | none => some { model := "BADARGS" }
+  | "pctg_dec", [a] =>
+    match Gen.bytesOf a with
+    | some s => let m := pctg_dec s; some { model := m, spec := some (impl == m) }
+    | none => some { model := "BADARGS" }
+  | "b64g_enc", [a] =>
+    match Gen.bytesOf a with
+    | some b => let m := Gen.hl (Base64.encodeTR b []); some { model := m, spec := some (impl == m) }
+    | none => some { model := "BADARGS" }
+  | "b64g_dec", [a] =>
+    match Gen.bytesOf a with
+    | some s =>
+      let m := outcomeStrL (Base64.decodeTR s)
+      some { model := m, spec := some (impl == m && (s.length > 4096 || impl == b64g_dec_spec s)) }
+    | none => some { model := "BADARGS" }
   | "pct_enc", [a] =>
     match unhex a with
     | some b => some { model := pct_enc b, spec := some (impl == hex (Percent.Spec.encode b)) }
